@@ -126,7 +126,7 @@ def r_accept_one(rep, f):
         hk = rk.StepHooks(b["body"])
         cands = []
         if hk.accept_if is not None:
-            cands.append((hk.accept_if["cond"], "accept"))
+            cands.append((hk.accept_if["cond"], "accept" if hk.accept_branch == "then" else "reject"))
         else:
             # mirrored form: `if norm > 1.0 { reject; continue }` directly before `accepted += 1`
             main = main_loop_of(b)
@@ -138,6 +138,9 @@ def r_accept_one(rep, f):
             rep.inconc("R-ACCEPT-ONE", key, "accept test not identified (%d candidates)" % len(cands))
             continue
         c, kind = cands[0]
+        while c.get("k") == "Unary" and c.get("op") == "Not":
+            c = c["e"]
+            kind = "reject" if kind == "accept" else "accept"
         if c.get("k") == "Path" and c.get("res") == "local" and c.get("ty") == "bool":
             lets = tast.find(b["body"], lambda z: z.get("k") == "Let" and z["pat"].get("id") == c.get("id") and z.get("init") is not None)
             assigns = tast.find(b["body"], lambda z: z.get("k") == "Assign" and z["l"].get("k") == "Path" and z["l"].get("id") == c.get("id"))
@@ -358,38 +361,54 @@ def r_grade_hinit(rep, f):
 
 
 # ------------------------------------------------------------------------------------------ R-PARITY
+STAGE_ATOM = re.compile(r"^F\d+(@\d+)?$")   # values of the right-hand side (dy/dx): odd under time reflection
+
+
 def parity_fn(odd, even=()):
-    """parity of a symbolic value under time reflection given the atoms assumed odd; constants are even, opaque scalar
-    functions are even, abs/sqrt/sum/comparisons are even, a join takes the common parity of its non-constant inputs"""
+    """parity of a symbolic value under time reflection given the atoms assumed odd. Constants are even; opaque scalar
+    functions of consistent arguments are even; abs/sqrt/sum/comparisons of a value of definite parity are even; a join,
+    min or max takes the common parity of its non-constant inputs and is `mixed` when they differ. `mixed` is contagious:
+    |odd + even| is not invariant under reflection, so abs() does not launder it. An atom that (through a loop-carried
+    definition) refers back to itself contributes nothing to a join (None)."""
     memo = {}
+    INPROGRESS = object()
+    why = []
 
     def par_atom(a, depth=0):
         if a in memo:
-            return memo[a]
-        memo[a] = "even"
-        if a in odd:
+            v = memo[a]
+            return None if v is INPROGRESS else v
+        if a in odd or (a not in even and STAGE_ATOM.match(a)):
+            memo[a] = "odd"
+            return "odd"
+        if a in even or a not in DEFS or depth >= 60:
+            memo[a] = "even"
+            return "even"
+        memo[a] = INPROGRESS
+        op, xs = DEFS[a]
+        args = [x for x in xs if isinstance(x, Poly)]
+        base = op.split(":")[0]
+        ps = [par(x, depth + 1) for x in args if not x.is_const()]
+        if base == "call" and op.startswith("call:methods::hinit"):
+            # the automatic first step is a signed step (R-PARITY:methods::hinit checks that it is)
             r = "odd"
-        elif a in even:
-            r = "even"
-        elif a in DEFS and depth < 40:
-            op, xs = DEFS[a]
-            args = [x for x in xs if isinstance(x, Poly)]
-            base = op.split(":")[0]
-            if base in ("abs", "sqrt", "sum", "le", "lt", "ge", "gt", "eq", "ne", "and", "or", "not"):
-                # a sum of a `mixed` term is still mixed
-                r = "even"
-                if base == "sum" and args and par(args[0], depth + 1) == "mixed":
-                    r = "mixed"
-            elif base in ("signum", "inv", "neg", "vec", "idx", "proj", "unwrap", "armval", "Some"):
-                r = par(args[0], depth + 1) if args else "even"
-            elif base in ("phi", "widen", "max", "min", "clamp"):
-                ps = {par(x, depth + 1) for x in args if not x.is_const()}
-                r = ps.pop() if len(ps) == 1 else ("even" if not ps else "mixed")
-            elif base == "powf":
-                r = "even" if par(args[0], depth + 1) == "even" else "mixed"
-            else:
-                r = "even"
+        elif base == "clamp" and len(args) == 3 and (args[1] + args[2]).is_zero():
+            # symmetric clamp(v, -M, M) keeps the parity of v
+            r = par(args[0], depth + 1) or "even"
+        elif any(p_ == "mixed" for p_ in ps):
+            r = "mixed"
+        elif base in ("signum", "inv", "neg", "vec", "idx", "proj", "unwrap", "armval", "Some", "elt", "sum"):
+            # linear / sign-preserving in their argument (a sum over components is linear)
+            r = ps[0] if ps and ps[0] is not None else "even"
+        elif base in ("phi", "widen", "max", "min", "clamp"):
+            known = {p_ for p_ in ps if p_ is not None}
+            r = known.pop() if len(known) == 1 else ("even" if not known else "mixed")
+            if r == "mixed" and not why:
+                why.append("%s of %s" % (base, ["%s: %s" % (par(x, depth + 1), repr(x)[:90]) for x in args if not x.is_const()][:4]))
+        elif base in ("powf", "powi"):
+            r = "even" if (not ps or ps[0] in ("even", None)) else "mixed" if base == "powf" else ps[0]
         else:
+            # abs, sqrt, sum of squares, comparisons, opaque scalar functions (norms, callee results): even
             r = "even"
         memo[a] = r
         return r
@@ -402,12 +421,20 @@ def parity_fn(odd, even=()):
                 pa = par_atom(a, depth)
                 if pa == "mixed":
                     return "mixed"
+                if pa is None:
+                    k = None
+                    break
                 if pa == "odd":
                     k += abs(e)
+            if k is None:
+                continue
             ps.add("odd" if k % 2 else "even")
         if not ps:
-            return "even"
+            return None if p.t and not p.is_const() else "even"
+        if len(ps) > 1 and not why:
+            why.append("sum of terms of different parity: %s" % repr(p)[:200])
         return ps.pop() if len(ps) == 1 else "mixed"
+    par.why = why
     return par
 
 
@@ -528,53 +555,7 @@ def r_parity(rep, f):
             for m, c in step.t.items():
                 if len(m) == 1 and m[0][0] not in DEFS and m[0][0] not in ("X", "xend", "x0"):
                     odd_assumed.add(m[0][0])
-            memo = {}
-
-            def par_atom(a, depth=0):
-                if a in memo:
-                    return memo[a]
-                memo[a] = "even"
-                if a in odd_assumed:
-                    r = "odd"
-                elif a in even_assumed:
-                    r = "even"
-                elif a in ("X", "xend", "x0", "XM", "posneg", "direction"):
-                    r = "odd"
-                elif a in DEFS and depth < 40:
-                    op, xs = DEFS[a]
-                    args = [x for x in xs if isinstance(x, Poly)]
-                    base = op.split(":")[0]
-                    if base in ("abs", "sqrt", "sum", "le", "lt", "ge", "gt", "eq", "ne", "and", "or", "not"):
-                        r = "even"
-                    elif base in ("signum", "inv", "neg", "vec", "idx", "proj", "unwrap", "armval", "Some"):
-                        r = par(args[0], depth + 1) if args else "even"
-                    elif base in ("phi", "widen", "max", "min", "clamp"):
-                        ps = {par(x, depth + 1) for x in args if not x.is_const()}
-                        r = ps.pop() if len(ps) == 1 else ("even" if not ps else "mixed")
-                    elif base == "powf":
-                        r = "even" if par(args[0], depth + 1) == "even" else "mixed"
-                    else:
-                        # opaque scalar functions (norms, error estimates, callee results) are even in whatever they depend on
-                        r = "even"
-                else:
-                    r = "even"
-                memo[a] = r
-                return r
-
-            def par(p, depth=0):
-                ps = set()
-                for m, c in p.t.items():
-                    odd = 0
-                    for a, e in m:
-                        pa = par_atom(a, depth)
-                        if pa == "mixed":
-                            return "mixed"
-                        if pa == "odd":
-                            odd += abs(e)
-                    ps.add("odd" if odd % 2 else "even")
-                if not ps:
-                    return "even"
-                return ps.pop() if len(ps) == 1 else "mixed"
+            par = parity_fn(set(odd_assumed) | {"X", "xend", "x0", "XM", "posneg", "direction"}, set(even_assumed))
 
             def check(p, want, what, node):
                 nonlocal n
@@ -582,8 +563,9 @@ def r_parity(rep, f):
                     return
                 n += 1
                 got = par(p)
-                if got != want:
-                    probs[what] = ("%s is %r, which is %s (not %s) under time reflection: a direction factor is missing or duplicated (path variant %s)" % (what, p, got, want, tag), node)
+                if got is not None and got != want:
+                    probs[what] = ("%s is %s, which is %s (not %s) under time reflection: a direction factor is missing or duplicated%s (path variant %s)"
+                                   % (what, repr(p)[:160], got, want, (" [" + par.why[0] + "]") if got == "mixed" and par.why else "", tag), node)
             check(step, "odd", "the step taken", souts[0]["node"])
             for s in hk.stages:
                 if s.get("head") or not s.get("in_main") or not isinstance(s.get("T"), Poly):
